@@ -15,7 +15,7 @@ CONSTANTS
   Keys = {}
   HelperNames = {}
   Plan <- NoPlan
-  Systems = {"uni", "chain", "mix"}
+  Systems = {"uni", "chain"}
   KTimes = {"s"}
   KConcs = {"M"}
   Wrongs <- W_none
@@ -26,7 +26,7 @@ CONSTANTS
   Modes = {"solver"}
   EqTemplates = {}
   EqWrongs = {}
-  CallKinds <- Calls_all
+  CallKinds <- Calls_t
   MaxCalls = 3
   Laws = {"mass"}
   TSources = {"param"}
